@@ -113,6 +113,14 @@ def scene(rng):
         out = sc.predict(pafs, torch.nested.nested_tensor(peaks), torch.nested.nested_tensor(vals), torch.nested.nested_tensor(chans))
         pinst, pvals, pscores, edge_inds, edge_peak_inds, line_scores = out
         m = sc.match_candidates(edge_inds, edge_peak_inds, line_scores)
+        if rng.random() < 0.5:
+            # matches computed once, grouped twice: first by a stricter scorer (min_line_scores 0.9, as in a threshold sweep),
+            # then by this one - the instances judged below are those of the SECOND grouping of the same match tensors
+            import attr
+            strict = attr.evolve(sc, min_line_scores=0.9)
+            nest = (torch.nested.nested_tensor(peaks), torch.nested.nested_tensor(vals), torch.nested.nested_tensor(chans))
+            strict.group_instances(*nest, *m)
+            pinst, pvals, pscores = sc.group_instances(*nest, *m)
         for b in range(B):
             pk, vv, ch = samples[b]
             grouped = [[k for k in range(len(pk)) if ch[k] == node] for node in range(n)]
